@@ -769,3 +769,23 @@ func constantInt(tv types.TypeAndValue) *int64 {
 	}
 	return &x
 }
+
+// TypeCaseIs is the fact "the type switch took (want) / did not take (!want)
+// a case clause listing the named type typeID".
+func TypeCaseIs(typeID string, want bool, desc string) Fact {
+	return Fact{Desc: desc, Hold: func(f *Func, e *flow.Edge) bool {
+		if e.From.Kind != flow.KTypeCase || (e.Kind != flow.ETrue && e.Kind != flow.EFalse) {
+			return false
+		}
+		if (e.Kind == flow.ETrue) != want {
+			return false
+		}
+		cc := e.From.Node.(*ast.CaseClause)
+		for _, te := range cc.List {
+			if TypeID(f.Info().TypeOf(te)) == typeID {
+				return true
+			}
+		}
+		return false
+	}}
+}
